@@ -59,7 +59,21 @@ MACH_QUICK = {"name": "mach", "n": 120, "seeds": 4}
 MACH_THOROUGH = {"name": "mach", "n": 400, "seeds": 12}
 SYMBOLIC = "symbolic cryptography: SHA-512 and bcrypt are ideal (verify(hash p) q <-> p = q); crypto/rand output is a parameter of the model (fed back from the real run); TOTP validity is an oracle parameter"
 
+MACH_TIES = ["Events", "Context", "Middleware", "Core", "Lock", "Auth", "Otp", "Confirm", "Recover", "Register", "Logout",
+             "Remember", "Expire", "OAuth2", "Totp", "Sms", "TwoFactor", "Responder", "Values"]
+MACH_TB = ["net/http, encoding/json, encoding/base64, pquerna/otp, x/crypto/bcrypt, x/oauth2 (real, under the harness)",
+           SYMBOLIC]
+
 PROPS = {
+    "C01": {
+        "ties": MACH_TIES,
+        "streams": {"quick": [MACH_QUICK], "thorough": [MACH_THOROUGH]},
+        "level": "proof",
+        "assumptions": [SYMBOLIC,
+                        "for the second-factor routes and the remember cookie the licence is stated through the success of the verifying sub-computation (totpValidate / smsVerdict / useToken); remember's is unfolded to the stored token",
+                        "malformed request bodies (body-reader parse errors) are outside the model"],
+        "trusted_base": MACH_TB,
+    },
     "C04": {
         "ties": ["Lock", "Events"],
         "streams": {
